@@ -6,7 +6,9 @@ use adlt::lifecycle::{Lifecycle, LifecycleId, LifecycleItem};
 use std::sync::mpsc::channel;
 
 /// kind: 0 plain (no ext header), 1 control request, 2 control response (non-verbose, 5-byte payload),
-/// 3 verbose control response whose first argument is a 1-byte bool (the short-argument witness)
+/// 3 verbose control response whose first argument is a 1-byte bool (the short-argument witness),
+/// >= 4: control response number kind-4 of `ctrl_table()` (verbose / non-verbose, both byte orders, the payload shapes the
+/// lifecycle code looks into).  Only the generators of the lifecycle group's own families produce kinds >= 4.
 #[derive(Clone, Debug, PartialEq)]
 pub struct MSpec {
     pub ecu: u8,
@@ -37,7 +39,14 @@ impl MSpec {
             0 => (None, vec![]),
             1 => (Some(DltExtendedHeader { verb_mstp_mtin: (3 << 1) | (1 << 4), noar: 1, apid: DltChar4::from_buf(b"APID"), ctid: DltChar4::from_buf(b"CTID") }), vec![0x13, 0, 0, 0]),
             2 => (Some(DltExtendedHeader { verb_mstp_mtin: (3 << 1) | (2 << 4), noar: 1, apid: DltChar4::from_buf(b"APID"), ctid: DltChar4::from_buf(b"CTID") }), vec![0x13, 0, 0, 0, 0]),
-            _ => (Some(DltExtendedHeader { verb_mstp_mtin: 1 | (3 << 1) | (2 << 4), noar: 1, apid: DltChar4::from_buf(b"APID"), ctid: DltChar4::from_buf(b"CTID") }), vec![0x11, 0, 0, 0, 1]),
+            3 => (Some(DltExtendedHeader { verb_mstp_mtin: 1 | (3 << 1) | (2 << 4), noar: 1, apid: DltChar4::from_buf(b"APID"), ctid: DltChar4::from_buf(b"CTID") }), vec![0x11, 0, 0, 0, 1]),
+            k => {
+                let sh = ctrl_shape(k).unwrap_or_else(|| panic!("MSpec kind {} is not in ctrl_table()", k));
+                if sh.big_endian {
+                    htyp |= 0x02;
+                }
+                (Some(DltExtendedHeader { verb_mstp_mtin: (sh.verbose as u8) | (3 << 1) | (2 << 4), noar: sh.noar, apid: DltChar4::from_buf(b"APID"), ctid: DltChar4::from_buf(b"CTID") }), sh.payload.clone())
+            }
         };
         if ext.is_some() {
             htyp |= 1;
@@ -56,6 +65,182 @@ impl MSpec {
     }
 }
 
+// ------------------------------------------------------------------ control responses whose payload the lifecycle code looks into
+/// `Lifecycle::update` inspects the payload of a control RESPONSE that it judges part of the current lifecycle while that
+/// lifecycle has no sw version yet: first argument -> service id (4 bytes in the byte order of the message), for the id 19
+/// (GET_SOFTWARE_VERSION) the second argument -> status byte, 4-byte length, text.  The arguments are whatever
+/// `DltMessageArgIterator` delivers: non-verbose: bytes 0..4 and the rest if there is one; verbose: typed arguments, `None` for a
+/// missing / truncated / unsupported one, an empty slice for a raw or string argument of length 0.
+#[derive(Clone, Debug)]
+pub struct CtrlShape {
+    pub verbose: bool,
+    pub big_endian: bool,
+    pub noar: u8,
+    pub payload: Vec<u8>,
+    pub class: &'static str,
+}
+pub const SID_SWV: u32 = 19; // adlt::dlt::SERVICE_ID_GET_SOFTWARE_VERSION
+const TI_BOOL: u32 = 0x10;
+const TI_UINT: u32 = 0x40;
+const TI_FLOA: u32 = 0x80;
+const TI_ARAY: u32 = 0x100;
+const TI_STRG: u32 = 0x200;
+const TI_RAWD: u32 = 0x400;
+const TI_VARI: u32 = 0x800;
+const TI_FIXP: u32 = 0x1000;
+fn b32(v: u32, be: bool) -> Vec<u8> {
+    if be { v.to_be_bytes().to_vec() } else { v.to_le_bytes().to_vec() }
+}
+fn b16(v: u16, be: bool) -> Vec<u8> {
+    if be { v.to_be_bytes().to_vec() } else { v.to_le_bytes().to_vec() }
+}
+fn cat(parts: &[&[u8]]) -> Vec<u8> {
+    parts.iter().flat_map(|p| p.iter().cloned()).collect()
+}
+/// the data of a GET_SOFTWARE_VERSION response behind the service id: status, length field, text
+pub fn swv_data(status: u8, len_field: u32, text: &[u8], be: bool) -> Vec<u8> {
+    cat(&[&[status], &b32(len_field, be), text])
+}
+/// verbose argument with a fixed-size value: type info + value bytes
+fn v_fixed(ti: u32, val: &[u8], be: bool) -> Vec<u8> {
+    cat(&[&b32(ti, be), val])
+}
+/// verbose raw / string argument: type info + 16 bit length + data (the length field may lie)
+fn v_sized(ti: u32, len_field: u16, data: &[u8], be: bool) -> Vec<u8> {
+    cat(&[&b32(ti, be), &b16(len_field, be), data])
+}
+fn build_ctrl_table() -> Vec<CtrlShape> {
+    let mut t: Vec<CtrlShape> = vec![];
+    let text: &[u8] = b"SW1";
+    // ---- non-verbose: payload = service id (4) ++ data
+    for be in [false, true] {
+        let mut nv = |payload: Vec<u8>, class: &'static str| t.push(CtrlShape { verbose: false, big_endian: be, noar: 1, payload, class });
+        let sid = b32(SID_SWV, be);
+        let full = cat(&[&sid, &swv_data(0, 3, text, be)]); // 12 bytes, well-formed
+        for n in 0..=full.len() {
+            nv(full[..n].to_vec(), match n { 0..=3 => "nv_id_truncated", 4 => "nv_swv_no_arg2", 5..=8 => "nv_swv_arg2_short", 9..=11 => "nv_swv_len_beyond", _ => "nv_swv_wellformed" });
+        }
+        nv(cat(&[&sid, &swv_data(0, 0, b"", be)]), "nv_swv_wellformed");
+        nv(cat(&[&sid, &swv_data(0, 2, text, be)]), "nv_swv_wellformed");
+        nv(cat(&[&sid, &swv_data(0, 4, text, be)]), "nv_swv_len_beyond");
+        nv(cat(&[&sid, &swv_data(0, u32::MAX, text, be)]), "nv_swv_len_beyond");
+        nv(cat(&[&sid, &[1u8]]), "nv_swv_arg2_short");
+        nv(cat(&[&sid, &swv_data(0, 20, b"version 1.2.3 build 7", be)[..25]]), "nv_swv_wellformed");
+        nv(cat(&[&b32(SID_SWV, !be), &swv_data(0, 3, text, be)]), "nv_other_sid");
+        for other in [18u32, 20, 3, 0] {
+            nv(b32(other, be), "nv_other_sid_no_arg2");
+        }
+        nv(cat(&[&b32(3, be), &[7u8]]), "nv_other_sid");
+    }
+    // ---- verbose: payload = typed arguments
+    for be in [false, true] {
+        let mut v = |noar: u8, payload: Vec<u8>, class: &'static str| t.push(CtrlShape { verbose: true, big_endian: be, noar, payload, class });
+        let id32 = v_fixed(TI_UINT | 3, &b32(SID_SWV, be), be);
+        let data = swv_data(0, 3, text, be); // 8 bytes
+        v(1, id32.clone(), "v_swv_no_arg2");
+        for n in 1..=3usize {
+            v(2, cat(&[&id32, &b32(TI_RAWD, be)[..n]]), "v_swv_arg2_none");
+        }
+        for k in 0..=9usize {
+            let mut d = data.clone();
+            d.push(0);
+            v(2, cat(&[&id32, &v_sized(TI_RAWD, k as u16, &d[..k], be)]), match k { 0 => "v_swv_arg2_empty", 1..=4 => "v_swv_arg2_short", 5..=7 => "v_swv_len_beyond", _ => "v_swv_wellformed" });
+        }
+        v(2, cat(&[&id32, &v_sized(TI_STRG, 0, b"", be)]), "v_swv_arg2_empty");
+        v(2, cat(&[&id32, &v_sized(TI_STRG, 8, &data, be)]), "v_swv_wellformed");
+        v(2, cat(&[&id32, &b32(TI_RAWD, be), &[8u8]]), "v_swv_arg2_none"); // length field incomplete
+        v(2, cat(&[&id32, &v_sized(TI_RAWD, 8, &data[..3], be)]), "v_swv_arg2_none"); // data shorter than the length field says
+        v(2, cat(&[&id32, &v_fixed(TI_UINT | 1, &[0], be)]), "v_swv_arg2_short");
+        v(2, cat(&[&id32, &v_fixed(TI_UINT | 3, &[0, 3, 0, 0], be)]), "v_swv_arg2_short");
+        v(2, cat(&[&id32, &v_fixed(TI_UINT | 4, &data, be)]), "v_swv_wellformed");
+        v(2, cat(&[&id32, &v_fixed(TI_FLOA | 3, &[0, 0, 0, 0], be)]), "v_swv_arg2_short");
+        v(2, cat(&[&id32, &v_fixed(TI_BOOL, &[1], be)]), "v_swv_arg2_short"); // bool with tyle 0 (dlt-viewer)
+        v(2, cat(&[&id32, &v_fixed(TI_UINT, &[0, 0, 0, 0, 0], be)]), "v_swv_arg2_none"); // uint with tyle 0
+        v(2, cat(&[&id32, &v_fixed(TI_UINT | 3 | TI_VARI, &data, be)]), "v_swv_arg2_none");
+        v(2, cat(&[&id32, &v_fixed(TI_UINT | 3 | TI_FIXP, &data, be)]), "v_swv_arg2_none");
+        v(2, cat(&[&id32, &v_fixed(TI_ARAY, &data, be)]), "v_swv_arg2_none");
+        // the service id as a raw / string / 64 bit first argument
+        let idraw = v_sized(TI_RAWD, 4, &b32(SID_SWV, be), be);
+        v(1, idraw.clone(), "v_swv_no_arg2");
+        v(2, cat(&[&idraw, &v_sized(TI_RAWD, 0, b"", be)]), "v_swv_arg2_empty");
+        v(2, cat(&[&idraw, &v_sized(TI_RAWD, 8, &data, be)]), "v_swv_wellformed");
+        v(2, cat(&[&idraw, &v_sized(TI_STRG, 0, b"", be)]), "v_swv_arg2_empty");
+        v(2, cat(&[&idraw, &v_fixed(TI_UINT | 1, &[0], be)]), "v_swv_arg2_short");
+        v(1, v_sized(TI_STRG, 4, &b32(SID_SWV, be), be), "v_swv_no_arg2");
+        v(1, v_fixed(TI_UINT | 4, &cat(&[&b32(SID_SWV, be), &[0u8; 4]]), be), "v_swv_no_arg2");
+        // first argument missing / too short to carry a service id / unsupported
+        v(0, vec![], "v_id_missing");
+        for n in 1..=3usize {
+            v(1, id32[..n].to_vec(), "v_id_missing");
+        }
+        v(2, cat(&[&v_fixed(TI_UINT | 2, &b16(SID_SWV as u16, be), be), &v_sized(TI_RAWD, 0, b"", be)]), "v_id_short");
+        v(1, v_fixed(TI_BOOL | 1, &[1], be), "v_id_short");
+        v(1, v_sized(TI_RAWD, 0, b"", be), "v_id_short");
+        v(1, v_sized(TI_RAWD, 3, &b32(SID_SWV, be)[..3], be), "v_id_short");
+        v(1, v_fixed(TI_UINT | 3 | TI_VARI, &b32(SID_SWV, be), be), "v_id_missing");
+        // other service ids
+        for other in [18u32, 20, 3] {
+            v(1, v_fixed(TI_UINT | 3, &b32(other, be), be), "v_other_sid");
+        }
+        v(1, v_fixed(TI_UINT | 3, &b32(SID_SWV, !be), be), "v_other_sid");
+    }
+    t
+}
+pub fn ctrl_table() -> &'static Vec<CtrlShape> {
+    static T: std::sync::OnceLock<Vec<CtrlShape>> = std::sync::OnceLock::new();
+    T.get_or_init(build_ctrl_table)
+}
+pub const KIND_CTRL_BASE: u8 = 4;
+pub fn ctrl_shape(kind: u8) -> Option<&'static CtrlShape> {
+    if kind < KIND_CTRL_BASE { None } else { ctrl_table().get((kind - KIND_CTRL_BASE) as usize) }
+}
+pub fn ctrl_kinds() -> std::ops::Range<u8> {
+    KIND_CTRL_BASE..(KIND_CTRL_BASE + ctrl_table().len() as u8)
+}
+/// kinds of a class (prefix match on the class name without the nv_/v_ prefix)
+pub fn ctrl_kinds_of(pred: impl Fn(&CtrlShape) -> bool) -> Vec<u8> {
+    ctrl_kinds().filter(|k| pred(ctrl_shape(*k).unwrap())).collect()
+}
+/// What the real argument iterator delivers for the first two arguments of the message: (payload_raw, is_big_endian)
+pub type ArgObs = Option<(Vec<u8>, bool)>;
+pub fn first_two_args(m: &DltMessage) -> (ArgObs, ArgObs) {
+    let mut it = m.into_iter();
+    let a1 = it.next().map(|a| (a.payload_raw.to_vec(), a.is_big_endian));
+    let a2 = it.next().map(|a| (a.payload_raw.to_vec(), a.is_big_endian));
+    (a1, a2)
+}
+/// service id the lifecycle code reads from the first argument (0: none)
+pub fn service_id_of(a1: &ArgObs) -> u32 {
+    match a1 {
+        Some((p, be)) if p.len() >= 4 => {
+            let b: [u8; 4] = [p[0], p[1], p[2], p[3]];
+            if *be { u32::from_be_bytes(b) } else { u32::from_le_bytes(b) }
+        }
+        _ => 0,
+    }
+}
+/// classification of a control response by what the sw-version block of `Lifecycle::update` will find (derived with the real
+/// argument iterator, not from the table's labels)
+pub fn ctrl_tags_of(s: &MSpec) -> Vec<&'static str> {
+    if s.kind < 2 {
+        return vec![];
+    }
+    let m = s.build(0);
+    let (a1, a2) = first_two_args(&m);
+    let mut t = vec!["ctrl_response"];
+    t.push(if m.is_verbose() { "ctrl_verbose" } else { "ctrl_nonverbose" });
+    t.push(if m.is_big_endian() { "ctrl_big_endian" } else { "ctrl_little_endian" });
+    if service_id_of(&a1) == SID_SWV {
+        t.push(match &a2 {
+            None => "swv_arg2_none",
+            Some((p, _)) => match p.len() { 0 => "swv_arg2_empty", 1..=4 => "swv_arg2_len1-4", 5..=8 => "swv_arg2_len5-8", _ => "swv_arg2_len>=9" },
+        });
+    } else {
+        t.push(if a1.is_none() { "ctrl_arg1_none" } else if service_id_of(&a1) == 0 { "ctrl_sid0_or_short_arg1" } else { "ctrl_other_sid" });
+    }
+    t
+}
+
 #[derive(Clone, Debug)]
 pub struct Delivery {
     pub index: u32,     // position of the message in the input (derived from the raw index and the case's index scheme)
@@ -67,10 +252,43 @@ pub struct Delivery {
     pub pub_same: bool, // lifecycle visible with the message's ECU, looked up inside the outflow closure
     pub pub_other: bool, // same lookup done by another thread before the closure returns
     pub intact: bool,
+    pub snap: Vec<SnapRow>, // the whole published table as a reader sees it inside the outflow closure
+}
+/// one key of the published table as a reader sees it: number of values in its bag and, of the first value, the per-refresh
+/// index (`lcs_w_refresh_idx`) and a fingerprint of the content a follower of the table would transmit
+#[derive(Clone, Debug, PartialEq)]
+pub struct SnapRow {
+    pub id: u32, // rank
+    pub bag_len: usize,
+    pub refresh_idx: u32,
+    pub content: (u8, u32, u64, u64, bool, u32, Option<String>), // ecu, nr_msgs, start, end, is_resume, origin rank, sw version
+}
+pub fn snapshot<M, S>(a: &evmap::MapReadRef<LifecycleId, LifecycleItem, M, S>, base: u32) -> Vec<SnapRow>
+where
+    S: std::hash::BuildHasher + Clone,
+    M: 'static + Clone,
+{
+    let mut v: Vec<SnapRow> = a
+        .iter()
+        .map(|(id, b)| match b.get_one() {
+            Some(lc) => SnapRow {
+                id: id.wrapping_sub(base),
+                bag_len: b.len(),
+                refresh_idx: lc.lcs_w_refresh_idx,
+                content: (ecu_no(&lc.ecu), lc.nr_msgs, lc.start_time, if lc.nr_msgs == 0 { 0 } else { lc.end_time() }, lc.is_resume(),
+                          lc.verif_resume_origin_id().map(|i| i.wrapping_sub(base)).unwrap_or(0), lc.sw_version.clone()),
+            },
+            None => SnapRow { id: id.wrapping_sub(base), bag_len: 0, refresh_idx: 0, content: (0, 0, 0, 0, false, 0, None) },
+        })
+        .collect();
+    v.sort_by_key(|r| r.id);
+    v
 }
 #[derive(Clone, Debug)]
 pub struct LcRow {
     pub id: u32, // rank
+    pub bag_len: usize, // number of values the key has in the published table (1 for every entry the detector publishes)
+    pub sw_version: Option<String>,
     pub ecu: u8,
     pub nr_msgs: u32,
     pub start: u64,
@@ -83,6 +301,8 @@ pub struct LcRun {
     pub table: Vec<LcRow>,            // sorted by id
     pub listing: Result<Vec<u32>, String>, // get_sorted_lifecycles_as_vec (ranks) or panic text
     pub panic: Option<String>,
+    pub stage_died: bool, // the panic came out of parse_lifecycles_buffered_from_stream itself (deliveries = what it forwarded before)
+    pub final_snap: Vec<SnapRow>,
     pub base: u32,
 }
 
@@ -112,7 +332,12 @@ pub fn run_detector_s(pre: &[MSpec], msgs: &[MSpec], other_thread: bool, scheme:
     };
     let pre = pre.to_vec();
     let msgs = msgs.to_vec();
+    // what the stage forwarded, kept outside the stage's own unwind boundary: when the stage dies the deliveries made before
+    // are still known
+    let deliveries = std::sync::Arc::new(std::sync::Mutex::new(Vec::<Delivery>::new()));
+    let deliveries_in = deliveries.clone();
     let r = catch_loc(move || {
+        let deliveries = deliveries_in;
         let (lcs_r, mut lcs_w) = evmap::new::<LifecycleId, LifecycleItem>();
         if !pre.is_empty() {
             let (tx, rx) = channel();
@@ -127,7 +352,6 @@ pub fn run_detector_s(pre: &[MSpec], msgs: &[MSpec], other_thread: bool, scheme:
             tx.send(s.build(idx(i))).unwrap();
         }
         drop(tx);
-        let deliveries = std::cell::RefCell::new(Vec::<Delivery>::new());
         // reader thread
         let (qtx, qrx) = channel::<(u32, DltChar4)>();
         let (atx, arx) = channel::<bool>();
@@ -145,7 +369,9 @@ pub fn run_detector_s(pre: &[MSpec], msgs: &[MSpec], other_thread: bool, scheme:
             None
         };
         let msgs2 = msgs.clone();
-        let lcs_w = adlt::lifecycle::parse_lifecycles_buffered_from_stream(lcs_w, rx, &|m: DltMessage| {
+        // the stage itself, behind its own unwind boundary: a panic inside parse_lifecycles_buffered_from_stream (the lifecycle
+        // thread of the pipelines dying) is reported as such, with the location
+        let stage = catch_loc(std::panic::AssertUnwindSafe(|| adlt::lifecycle::parse_lifecycles_buffered_from_stream(lcs_w, rx, &|m: DltMessage| {
             let pub_same = lcs_r.get_one(&m.lifecycle).map(|l| l.ecu == m.ecu).unwrap_or(false);
             let pub_other = if other_thread {
                 qtx.send((m.lifecycle, m.ecu)).unwrap();
@@ -153,13 +379,14 @@ pub fn run_detector_s(pre: &[MSpec], msgs: &[MSpec], other_thread: bool, scheme:
             } else {
                 pub_same
             };
+            let snap = lcs_r.read().map(|a| snapshot(&a, base)).unwrap_or_default();
             let pos = pos_of(m.index);
             let intact = pos < msgs2.len() && {
                 let mut o = msgs2[pos].build(m.index);
                 o.lifecycle = m.lifecycle;
                 o == m
             };
-            deliveries.borrow_mut().push(Delivery {
+            deliveries.lock().unwrap().push(Delivery {
                 index: if pos == usize::MAX { u32::MAX } else { pos as u32 },
                 raw_index: m.index,
                 ecu: ecu_no(&m.ecu),
@@ -169,20 +396,36 @@ pub fn run_detector_s(pre: &[MSpec], msgs: &[MSpec], other_thread: bool, scheme:
                 pub_same,
                 pub_other,
                 intact,
+                snap,
             });
             Ok(())
-        });
+        })));
         drop(qtx);
         if let Some(t) = reader {
             let _ = t.join();
         }
+        let lcs_w = match stage {
+            Ok(w) => w,
+            Err(e) => return Err(e),
+        };
         let mut table = vec![];
         let mut listing = Ok(vec![]);
+        let mut final_snap = vec![];
         if let Some(a) = lcs_r.read() {
+            final_snap = snapshot(&a, base);
             for (id, b) in a.iter() {
-                let lc = b.get_one().unwrap();
+                // a key whose bag is empty (or holds several values) is reported as such, not unwrapped
+                let lc = match b.get_one() {
+                    Some(lc) => lc,
+                    None => {
+                        table.push(LcRow { id: id.wrapping_sub(base), bag_len: 0, sw_version: None, ecu: 0, nr_msgs: 0, start: 0, end: 0, is_resume: false, origin: 0 });
+                        continue;
+                    }
+                };
                 table.push(LcRow {
                     id: id.wrapping_sub(base),
+                    bag_len: b.len(),
+                    sw_version: lc.sw_version.clone(),
                     ecu: ecu_no(&lc.ecu),
                     nr_msgs: lc.nr_msgs,
                     start: lc.start_time,
@@ -198,11 +441,13 @@ pub fn run_detector_s(pre: &[MSpec], msgs: &[MSpec], other_thread: bool, scheme:
         }
         table.sort_by_key(|r| r.id);
         drop(lcs_w);
-        (deliveries.into_inner(), table, listing)
+        Ok((table, listing, final_snap))
     });
+    let deliveries = std::mem::take(&mut *deliveries.lock().unwrap_or_else(|e| e.into_inner()));
     match r {
-        Ok((deliveries, table, listing)) => LcRun { deliveries, table, listing, panic: None, base },
-        Err(e) => LcRun { deliveries: vec![], table: vec![], listing: Ok(vec![]), panic: Some(e), base },
+        Ok(Ok((table, listing, final_snap))) => LcRun { deliveries, table, listing, panic: None, stage_died: false, final_snap, base },
+        Ok(Err(e)) => LcRun { deliveries, table: vec![], listing: Ok(vec![]), panic: Some(e), stage_died: true, final_snap: vec![], base },
+        Err(e) => LcRun { deliveries, table: vec![], listing: Ok(vec![]), panic: Some(e), stage_died: false, final_snap: vec![], base },
     }
 }
 
@@ -214,8 +459,10 @@ impl LcRun {
         }
         O::T(vec![
             O::L(0),
-            O::T(self.deliveries.iter().map(|d| O::T(vec![O::n(d.raw_index), O::n(d.lc), O::b(d.pub_same && d.pub_other)])).collect()),
-            O::T(self.table.iter().map(|r| O::T(vec![O::n(r.id), O::n(r.ecu), O::n(r.nr_msgs), O::n(r.start), O::n(r.end), O::b(r.is_resume), O::n(r.origin)])).collect()),
+            // visible = the lifecycle is found with the message's ECU in a table every key of which has exactly one value
+            O::T(self.deliveries.iter().map(|d| O::T(vec![O::n(d.raw_index), O::n(d.lc), O::b(d.pub_same && d.pub_other && d.snap.iter().all(|x| x.bag_len == 1))])).collect()),
+            // a key with no value or several values has no counterpart in the model (rendered as [id; number of values])
+            O::T(self.table.iter().map(|r| if r.bag_len == 1 { O::T(vec![O::n(r.id), O::n(r.ecu), O::n(r.nr_msgs), O::n(r.start), O::n(r.end), O::b(r.is_resume), O::n(r.origin)]) } else { O::T(vec![O::n(r.id), O::n(r.bag_len as u64)]) }).collect()),
             match &self.listing {
                 Ok(l) => O::T(vec![O::L(0), O::T(l.iter().map(|i| O::n(*i)).collect())]),
                 Err(_) => O::T(vec![O::L(1)]),
@@ -672,15 +919,258 @@ pub fn clean_tags(t: &CleanTrace) -> Vec<String> {
     tags
 }
 
+// ------------------------------------------------------------------ traces with control responses whose payload is looked into
+/// (kinds at the boundary of the sw-version block's guard: service id 19 with a second argument that is missing / empty /
+///  1-4 bytes; kinds carrying a version the code accepts; all kinds) -- derived with the real argument iterator
+pub fn ctrl_kind_groups() -> &'static (Vec<u8>, Vec<u8>, Vec<u8>) {
+    static G: std::sync::OnceLock<(Vec<u8>, Vec<u8>, Vec<u8>)> = std::sync::OnceLock::new();
+    G.get_or_init(|| {
+        let probe = |k: u8| MSpec { ecu: 1, rt: 1, ts_dms: 0, has_ts: true, kind: k };
+        let boundary: Vec<u8> = ctrl_kinds().filter(|k| ctrl_tags_of(&probe(*k)).iter().any(|t| matches!(*t, "swv_arg2_none" | "swv_arg2_empty" | "swv_arg2_len1-4"))).collect();
+        let wellformed: Vec<u8> = ctrl_kinds().filter(|k| ctrl_shape(*k).unwrap().class.ends_with("swv_wellformed")).collect();
+        (boundary, wellformed, ctrl_kinds().collect())
+    })
+}
+pub fn gen_ctrl_kind(rng: &mut Rng) -> u8 {
+    let (boundary, wellformed, all) = ctrl_kind_groups();
+    match rng.below(10) {
+        0..=3 => *rng.pick(&boundary[..]),
+        4 | 5 => *rng.pick(&wellformed[..]),
+        _ => *rng.pick(&all[..]),
+    }
+}
+/// The labels of the table agree with what the real argument iterator makes of the payloads (so that the families really
+/// reach what they are named after); called once per harness run.
+pub fn check_ctrl_table() {
+    assert!(ctrl_table().len() <= (255 - KIND_CTRL_BASE as usize), "ctrl_table does not fit into the kind byte");
+    for k in ctrl_kinds() {
+        let sh = ctrl_shape(k).unwrap();
+        let tags = ctrl_tags_of(&MSpec { ecu: 1, rt: 1, ts_dms: 0, has_ts: true, kind: k });
+        let has = |t: &str| tags.iter().any(|x| *x == t);
+        let c = sh.class.splitn(2, '_').nth(1).unwrap();
+        let ok = match c {
+            "swv_no_arg2" | "swv_arg2_none" => has("swv_arg2_none"),
+            "swv_arg2_empty" => has("swv_arg2_empty"),
+            "swv_arg2_short" => has("swv_arg2_len1-4"),
+            "swv_len_beyond" | "swv_wellformed" => has("swv_arg2_len5-8") || has("swv_arg2_len>=9"),
+            "id_truncated" | "id_missing" => has("ctrl_arg1_none"),
+            "id_short" => has("ctrl_sid0_or_short_arg1"),
+            "other_sid" | "other_sid_no_arg2" => has("ctrl_other_sid") || has("ctrl_sid0_or_short_arg1"),
+            _ => false,
+        };
+        assert!(ok, "ctrl_table entry {} ({:?}) is classified {:?} by the argument iterator", k, sh, tags);
+        assert_eq!(has("ctrl_verbose"), sh.verbose);
+        assert_eq!(has("ctrl_big_endian"), sh.big_endian);
+    }
+}
+
+/// 1-3 ECUs logging steadily (messages judged part of the current lifecycle), with control responses of all payload shapes
+/// as first and as later messages of an ECU, before and after a response that carried a version, around reboots, reception
+/// gaps (> 10 s: resume; > 60 s: confirmation) and messages without timestamp; control requests in between.
+pub fn gen_ctrl_trace(rng: &mut Rng) -> Vec<MSpec> {
+    let necu = rng.range(1, 3) as usize;
+    let n = rng.range(2, 12);
+    let base = *rng.pick(&[RHO, RHO, 5_000_000, 70_000_000][..]);
+    let mut boot: Vec<u64> = (0..necu).map(|_| base.saturating_sub(rng.below(5_000_000))).collect();
+    let mut seen = vec![false; necu];
+    let mut now = base;
+    let mut out = vec![];
+    for _ in 0..n {
+        let e = rng.below(necu as u64) as usize;
+        now += match rng.below(10) {
+            0 => rng.range(11_000_000, 70_000_000),
+            1 => 0,
+            2 => 1_000_000 + rng.below(1_000),
+            _ => rng.below(900_000),
+        };
+        if seen[e] && rng.chance(1, 10) {
+            boot[e] = now.saturating_sub(rng.below(300_000)); // reboot: the message starts a new lifecycle
+        }
+        let delay = rng.below(200_000);
+        let ts_dms = (now.saturating_sub(delay).saturating_sub(boot[e]) / 100).min(u32::MAX as u64) as u32;
+        let kind = if !seen[e] {
+            if rng.chance(1, 3) { gen_ctrl_kind(rng) } else { 0 }
+        } else {
+            match rng.below(10) {
+                0..=5 => gen_ctrl_kind(rng),
+                6 => 1,
+                7 => 2,
+                _ => 0,
+            }
+        };
+        seen[e] = true;
+        out.push(MSpec { ecu: e as u8 + 1, rt: now, ts_dms, has_ts: !rng.chance(1, 15), kind });
+    }
+    out
+}
+/// turn 1-3 plain messages of a trace of any family into control responses (times unchanged: the lifecycle history of the
+/// trace - merges, confirmations, resumes, flushes - stays what it was)
+pub fn sprinkle_ctrl(rng: &mut Rng, msgs: &mut [MSpec]) {
+    if msgs.is_empty() {
+        return;
+    }
+    for _ in 0..rng.range(1, 3) {
+        let i = rng.below(msgs.len() as u64) as usize;
+        if msgs[i].kind == 0 {
+            msgs[i].kind = gen_ctrl_kind(rng);
+        }
+    }
+}
+/// distribution tags of the control responses of a trace
+pub fn ctrl_trace_tags(msgs: &[MSpec], r: &LcRun) -> Vec<String> {
+    let mut tags: Vec<String> = vec![];
+    let mut add = |s: String| if !tags.contains(&s) { tags.push(s) };
+    let mut seen: Vec<u8> = vec![];
+    let mut wellformed_before: Vec<u8> = vec![];
+    for m in msgs {
+        if m.kind >= 2 {
+            let t = ctrl_tags_of(m);
+            let swv = t.iter().any(|x| x.starts_with("swv_"));
+            for x in t.iter() {
+                add(x.to_string());
+            }
+            add(if seen.contains(&m.ecu) { "ctrl_later_msg_of_ecu" } else { "ctrl_first_msg_of_ecu" }.to_string());
+            if swv {
+                add(if wellformed_before.contains(&m.ecu) { "swv_after_version_response_of_ecu" } else { "swv_without_earlier_version_of_ecu" }.to_string());
+                if seen.contains(&m.ecu) && t.iter().any(|x| matches!(*x, "swv_arg2_none" | "swv_arg2_empty")) {
+                    add("swv_no_data_later_msg_of_ecu".to_string());
+                }
+            }
+            if let Some(sh) = ctrl_shape(m.kind) {
+                if sh.class.ends_with("swv_wellformed") && seen.contains(&m.ecu) {
+                    wellformed_before.push(m.ecu);
+                }
+            }
+        }
+        if !seen.contains(&m.ecu) {
+            seen.push(m.ecu);
+        }
+    }
+    if r.table.iter().any(|x| x.sw_version.is_some()) {
+        add("sw_version_in_table".to_string());
+    }
+    if r.stage_died {
+        add("stage_died".to_string());
+    }
+    tags
+}
+
+// ------------------------------------------------------------------ the sw-version block on its own (C05: case CSwv)
+fn coq_bytes(b: &[u8]) -> String {
+    clist(&b.iter().map(|x| x.to_string()).collect::<Vec<_>>())
+}
+fn coq_arg(a: &ArgObs) -> String {
+    copt(a.as_ref().map(|(p, be)| format!("({}, {})", coq_bytes(p), cbool(*be))))
+}
+/// One lifecycle (a plain first message), optionally a response that carries a version (`prior`), then the response `kind`,
+/// all judged part of that lifecycle: `Lifecycle::update` of the real code runs the block on what the real argument iterator
+/// delivers; observed: returned / panicked, and the lifecycle's sw version afterwards.  The model gets the arguments.
+pub fn record_swv(sink: &mut Sink, prior: Option<u8>, kind: u8) {
+    let mut m0 = MSpec { ecu: 1, rt: RHO, ts_dms: 10, has_ts: true, kind: 0 }.build(0);
+    let mut lc = Lifecycle::new(&mut m0);
+    if let Some(pk) = prior {
+        let mut m1 = MSpec { ecu: 1, rt: RHO + 1_000, ts_dms: 20, has_ts: true, kind: pk }.build(1);
+        assert!(lc.update(&mut m1, 60_000_000).is_none());
+    }
+    let cur = lc.sw_version.clone();
+    let mut m2 = MSpec { ecu: 1, rt: RHO + 2_000, ts_dms: 30, has_ts: true, kind }.build(2);
+    let (a1, a2) = first_two_args(&m2);
+    let is_resp = m2.is_ctrl_response();
+    let r = catch_loc(std::panic::AssertUnwindSafe(|| {
+        let new_lc = lc.update(&mut m2, 60_000_000);
+        (new_lc.is_none(), lc.sw_version.clone())
+    }));
+    let ascii = |s: &Option<String>| s.as_ref().map(|x| x.is_ascii() && !x.contains('\n') && !x.contains('\r')).unwrap_or(true);
+    assert!(ascii(&cur), "sw version texts of the table are ASCII without line breaks");
+    let optb = |s: &Option<String>| match s {
+        None => O::T(vec![]),
+        Some(x) => O::T(vec![O::T(x.as_bytes().iter().map(|b| O::n(*b)).collect())]),
+    };
+    let (obs, verdict) = match &r {
+        Ok((true, v)) => (O::T(vec![O::L(0), optb(v)]), Verdict::Ok),
+        Ok((false, _)) => (O::T(vec![O::L(2)]), fail("harness_assumption", "the response was not judged part of the lifecycle".into())),
+        Err(e) => (O::T(vec![O::L(1)]), fail("stage_died", format!("Lifecycle::update panicked on a control response (first argument {:?}, second argument {:?}): {}", a1, a2, e))),
+    };
+    let input_coq = format!("CSwv ({}, {}, {}, {})", copt(cur.as_ref().map(|s| coq_bytes(s.as_bytes()))), cbool(is_resp), coq_arg(&a1), coq_arg(&a2));
+    let mut tags: Vec<String> = vec!["swv_block".to_string()];
+    tags.extend(ctrl_tags_of(&MSpec { ecu: 1, rt: 1, ts_dms: 0, has_ts: true, kind }).iter().map(|s| s.to_string()));
+    tags.push(if cur.is_some() { "swv_block_version_present" } else { "swv_block_no_version_yet" }.to_string());
+    if let Ok((_, Some(_))) = &r {
+        if cur.is_none() {
+            tags.push("swv_block_sets_version".to_string());
+        }
+    }
+    let id = sink.next_id();
+    sink.push(Case { id, key: format!("{} kind{} prior{:?}", input_coq, kind, prior), input_coq, input_json: json!({"swv": {"prior": prior, "kind": kind}}), obs, verdict, classes: vec![], tags, nontrivial: true });
+}
+
 // ------------------------------------------------------------------ oracles
 fn fail(c: &str, d: String) -> Verdict {
     Verdict::Fail { clause: c.into(), detail: d }
 }
 
+/// the stage has to return: a panic inside parse_lifecycles_buffered_from_stream (in the pipelines: the lifecycle thread dies,
+/// the triggering message, everything still buffered and everything later is never forwarded) fails every property of the group
+fn stage_verdict(n_msgs: usize, r: &LcRun) -> Option<Verdict> {
+    let p = r.panic.as_ref()?;
+    Some(if r.stage_died {
+        fail("stage_died", format!("lifecycle stage ended abnormally after forwarding {} of {} messages: {}", r.deliveries.len(), n_msgs, p))
+    } else {
+        fail("detector_panicked", p.clone())
+    })
+}
+
+/// every key of the published table has exactly one value (readers do `get_one().unwrap()`): at every delivery / at the end
+fn bags_at_deliveries(r: &LcRun) -> Option<Verdict> {
+    for d in r.deliveries.iter() {
+        if let Some(x) = d.snap.iter().find(|x| x.bag_len != 1) {
+            return Some(fail("published_key_single_value", format!("at the delivery of message {}: key {} of the published table has {} values", d.index, x.id, x.bag_len)));
+        }
+    }
+    None
+}
+fn bags_at_end(r: &LcRun) -> Option<Verdict> {
+    r.final_snap.iter().find(|x| x.bag_len != 1).map(|x| fail("table_key_single_value", format!("final table: key {} has {} values", x.id, x.bag_len)))
+}
+
+/// The per-refresh index of the published entries (`lcs_w_refresh_idx`), which followers of the table rely on (the remote
+/// server sends only entries whose index is above the highest one it has seen): observed at every delivery and at the end,
+/// for runs that start from an empty table (the counter is per run).  Indices are positive, the index of a lifecycle never
+/// decreases, and an entry that is new or whose content changed carries an index above every index visible at an earlier
+/// instant (two refreshes that publish different content never carry the same index).
+pub fn refresh_index_verdict(r: &LcRun) -> Option<Verdict> {
+    let mut idx_of: std::collections::BTreeMap<u32, u32> = Default::default();
+    let mut content_of: std::collections::BTreeMap<u32, &(u8, u32, u64, u64, bool, u32, Option<String>)> = Default::default();
+    let mut last = 0u32; // what a follower polling at every instant remembers
+    let instants = r.deliveries.iter().map(|d| (format!("delivery of message {}", d.index), &d.snap)).chain(std::iter::once(("end of the stream".to_string(), &r.final_snap)));
+    for (label, snap) in instants {
+        for x in snap.iter().filter(|x| x.bag_len >= 1) {
+            if x.refresh_idx == 0 {
+                return Some(fail("refresh_index_positive", format!("{}: lifecycle {} published with refresh index 0", label, x.id)));
+            }
+            if let Some(p) = idx_of.get(&x.id) {
+                if x.refresh_idx < *p {
+                    return Some(fail("refresh_index_never_decreases", format!("{}: refresh index of lifecycle {} went from {} to {}", label, x.id, p, x.refresh_idx)));
+                }
+            }
+            let changed = content_of.get(&x.id).map(|c| **c != x.content).unwrap_or(true);
+            if changed && x.refresh_idx <= last {
+                return Some(fail("refresh_index_fresh", format!("{}: lifecycle {} was published or changed ({:?}) with refresh index {} although index {} was visible before: a follower that fetches only entries above the highest index it has seen never gets it", label, x.id, x.content, x.refresh_idx, last)));
+            }
+        }
+        for x in snap.iter().filter(|x| x.bag_len >= 1) {
+            idx_of.insert(x.id, x.refresh_idx);
+            content_of.insert(x.id, &x.content);
+            last = last.max(x.refresh_idx);
+        }
+    }
+    None
+}
+
 /// C05: every message forwarded exactly once, in order, unchanged except the lifecycle; non-zero id of an own-ECU lifecycle
 pub fn oracle_c05(msgs: &[MSpec], r: &LcRun) -> Verdict {
-    if let Some(p) = &r.panic {
-        return fail("detector_panicked", p.clone());
+    if let Some(v) = stage_verdict(msgs.len(), r) {
+        return v;
     }
     if r.deliveries.len() != msgs.len() {
         return fail("forward_once", format!("{} delivered, {} received", r.deliveries.len(), msgs.len()));
@@ -705,9 +1195,12 @@ pub fn oracle_c05(msgs: &[MSpec], r: &LcRun) -> Verdict {
 }
 
 /// C06: at every delivery the lifecycle is visible with the message's ECU (same thread and other thread)
-pub fn oracle_c06(_msgs: &[MSpec], r: &LcRun) -> Verdict {
-    if let Some(p) = &r.panic {
-        return fail("detector_panicked", p.clone());
+pub fn oracle_c06(msgs: &[MSpec], r: &LcRun) -> Verdict {
+    if let Some(v) = stage_verdict(msgs.len(), r) {
+        return v;
+    }
+    if let Some(v) = bags_at_deliveries(r) {
+        return v;
     }
     for d in r.deliveries.iter() {
         if !d.pub_same {
@@ -749,10 +1242,16 @@ pub fn listing_cmp_consistent(t: &[LcRow]) -> bool {
 
 /// C07: final table consistent with deliveries (runs from an empty table), listing clauses
 pub fn oracle_c07(pre: &[MSpec], msgs: &[MSpec], r: &LcRun) -> Verdict {
-    if let Some(p) = &r.panic {
-        return fail("detector_panicked", p.clone());
+    if let Some(v) = stage_verdict(msgs.len(), r) {
+        return v;
+    }
+    if let Some(v) = bags_at_end(r).or_else(|| bags_at_deliveries(r)) {
+        return v;
     }
     if pre.is_empty() {
+        if let Some(v) = refresh_index_verdict(r) {
+            return v;
+        }
         let mut sum = 0u64;
         for row in r.table.iter() {
             let cnt = r.deliveries.iter().filter(|d| d.lc == row.id).count() as u64;
@@ -803,8 +1302,8 @@ pub fn oracle_c07(pre: &[MSpec], msgs: &[MSpec], r: &LcRun) -> Verdict {
 
 /// C08 on a clean trace
 pub fn oracle_c08(t: &CleanTrace, r: &LcRun) -> Verdict {
-    if let Some(p) = &r.panic {
-        return fail("detector_panicked", p.clone());
+    if let Some(v) = stage_verdict(t.msgs.len(), r) {
+        return v;
     }
     if r.deliveries.len() != t.msgs.len() {
         return fail("forward_once", format!("{} delivered of {}", r.deliveries.len(), t.msgs.len()));
@@ -924,6 +1423,7 @@ pub fn lc_main(prop: &str) {
     let mut sink = Sink::new(prop, &a.out);
     sink.shard_size = 40;
     let other_thread = prop == "C06";
+    check_ctrl_table();
     let record_s = |sink: &mut Sink, scheme: Scheme, pre: Vec<MSpec>, msgs: Vec<MSpec>, clean: Option<&CleanTrace>| {
         let r = run_detector_s(&pre, &msgs, other_thread, scheme);
         // C08: whatever family a trace comes from (replays included), when it satisfies the clean-trace hypothesis the clauses
@@ -968,9 +1468,13 @@ pub fn lc_main(prop: &str) {
             }
         }
         let classes = vec![];
-        let input_coq = if prop == "C07" { format!("CStream {}", coq_case(scheme, &pre, &msgs)) } else { coq_case(scheme, &pre, &msgs) };
+        tags.extend(ctrl_trace_tags(&msgs, &r));
+        let input_coq = if prop == "C07" || prop == "C05" { format!("CStream {}", coq_case(scheme, &pre, &msgs)) } else { coq_case(scheme, &pre, &msgs) };
         let id = sink.next_id();
-        sink.push(Case { id, key: input_coq.clone(), input_coq, input_json: json_case(scheme, &pre, &msgs), obs: r.obs(), verdict, classes, tags, nontrivial });
+        // distinct by full input: the model's term abstracts the payload shape (kind) of control responses, the key does not
+        let kinds: Vec<u8> = pre.iter().chain(msgs.iter()).filter(|m| m.kind >= 2).map(|m| m.kind).collect();
+        let key = if kinds.is_empty() { input_coq.clone() } else { format!("{} kinds{:?}", input_coq, kinds) };
+        sink.push(Case { id, key, input_coq, input_json: json_case(scheme, &pre, &msgs), obs: r.obs(), verdict, classes, tags, nontrivial });
     };
     let mut srng = Rng::new(a.seed ^ 0x1d5c);
     let mut record = |sink: &mut Sink, pre: Vec<MSpec>, msgs: Vec<MSpec>, clean: Option<&CleanTrace>| {
@@ -982,6 +1486,9 @@ pub fn lc_main(prop: &str) {
         if v["case"].get("table").is_some() {
             let rows: Vec<TRow> = v["case"]["table"].as_array().unwrap().iter().map(TRow::from_json).collect();
             record_table(&mut sink, rows);
+        } else if v["case"].get("swv").is_some() {
+            let c = &v["case"]["swv"];
+            record_swv(&mut sink, c["prior"].as_u64().map(|x| x as u8), c["kind"].as_u64().unwrap() as u8);
         } else {
             let (pre, msgs) = case_from_json(&v["case"]);
             record_s(&mut sink, scheme_from_json(&v["case"]), pre, msgs, None);
@@ -1078,6 +1585,55 @@ pub fn lc_main(prop: &str) {
         let max_len = match brng.below(6) { 0 => 40, 1 | 2 => 20, _ => 8 };
         let msgs = gen_small_time(&mut brng, max_len);
         record(&mut sink, vec![], msgs, None);
+    }
+    // messages whose payload the lifecycle code looks into (own random stream): control responses of every shape of
+    // `ctrl_table()` -- verbose / non-verbose, both byte orders, service id 19 and others, second argument missing / empty /
+    // of every length up to a complete answer, wrong length fields, unsupported argument types
+    let mut crng = Rng::new(a.seed ^ 0xc7a1_0000);
+    let wellformed = ctrl_kind_groups().1.clone();
+    let plain = |ecu: u8, rt: u64, ts_dms: u32, kind: u8| MSpec { ecu, rt, ts_dms, has_ts: true, kind };
+    for k in ctrl_kinds() {
+        // as a later message of its ECU, the lifecycle has no version yet
+        record_s(&mut sink, (0, 1), vec![], vec![plain(1, RHO, 10, 0), plain(1, RHO + 100_000, 1_010, k)], None);
+        let sel = (k as u64 + a.seed) % 3;
+        if sel == 0 || a.tier != "quick" {
+            // after a response of the same lifecycle that carried a version
+            let w = *crng.pick(&wellformed[..]);
+            record_s(&mut sink, (0, 1), vec![], vec![plain(1, RHO, 10, 0), plain(1, RHO + 50_000, 510, w), plain(1, RHO + 100_000, 1_010, k), plain(1, RHO + 150_000, 1_510, 0)], None);
+        }
+        if sel == 1 || a.tier != "quick" {
+            // as the first message of its ECU, a second ECU interleaved, then the same response again as a later message
+            record_s(&mut sink, (0, 1), vec![], vec![plain(2, RHO, 50, 0), plain(1, RHO + 10, 10, k), plain(2, RHO + 1_000, 60, 0), plain(1, RHO + 100_000, 1_010, k)], None);
+        }
+    }
+    let (nc, nsp) = match a.tier.as_str() { "quick" => (120, 90), "search" => (400, 300), _ => (4000, 3000) };
+    let (nc, nsp) = match a.count { Some(c) => (c / 4, c / 6), None => (nc, nsp) };
+    for _ in 0..nc {
+        let msgs = gen_ctrl_trace(&mut crng);
+        record(&mut sink, vec![], msgs, None);
+    }
+    for k in 0..nsp {
+        let mut msgs = match k % 6 {
+            0 => gen_general(&mut crng, 14),
+            1 => gen_scenario(&mut crng),
+            2 => gen_merge_template(&mut crng),
+            3 => gen_resume_chain(&mut crng),
+            4 => gen_clean(&mut crng).msgs,
+            _ => gen_clean_boundary(&mut crng, true).msgs,
+        };
+        sprinkle_ctrl(&mut crng, &mut msgs);
+        let pre = if k % 6 == 0 { gen_pre(&mut crng) } else { vec![] };
+        record(&mut sink, pre, msgs, None);
+    }
+    if prop == "C05" {
+        // the sw-version block of Lifecycle::update on its own, every shape, without and with a version already found
+        for k in ctrl_kinds().chain(2..4u8) {
+            record_swv(&mut sink, None, k);
+            if (k as u64 + a.seed) % 3 == 2 || a.tier != "quick" {
+                let w = *crng.pick(&wellformed[..]);
+                record_swv(&mut sink, Some(w), k);
+            }
+        }
     }
     sink.finish();
 }
